@@ -173,11 +173,14 @@ func (c *Ctx) Report(p *plan.Plan, vs []Violation) {
 				dup = true
 			}
 		}
-		if !dup {
+		if !dup && len(c.violations) < 6 {
 			c.violations = append(c.violations, foundViolation{V: v, Plan: p.Clone()})
 		}
 		if len(c.violations) >= 3 {
 			c.stop = true
+		}
+		if len(c.violations) >= 6 {
+			break
 		}
 	}
 }
